@@ -168,7 +168,7 @@ class C04(Property):
             for r in runs:
                 ctx.count("runs")
                 if r["outcome"]["kind"] == "harness-error":
-                    ctx.notes.append(f"harness error: {r['outcome']['detail'][:200]}")
+                    ctx.notes.append(f"harness error: {r['outcome']['detail'][:1500]}")
                     ctx.count("harness-error")
                     continue
                 for fkey, detail in oracle(run_spec, r, failing):
